@@ -582,6 +582,21 @@ pub fn run_c12_one(tier: &str, rng: &mut Rng, model: &Model, rep: &mut Report, c
         let (k, sz, norm) = (c.params[0] as usize, c.params[1] as usize, c.params[2] == 1);
         let mut oc = OligoCgrComputer::new("-".into(), "-".into(), k, sz);
         oc.set_norm(norm);
+        let expanded: Vec<u8>;
+        let c: &Case = if c.kind == "oligocgrbig" {
+            // run-length encoded record: `byte*count+byte*count…`
+            let mut seq: Vec<u8> = Vec::new();
+            for part in c.extra.split(' ').next().unwrap_or("").split('+') {
+                let mut it = part.split('*');
+                if let (Some(b), Some(n)) = (it.next(), it.next()) {
+                    seq.extend(std::iter::repeat(b.parse::<u8>().unwrap_or(b'N')).take(n.parse().unwrap_or(0)));
+                }
+            }
+            expanded = seq;
+            &Case { kind: "oligocgr", params: c.params.clone(), seq: expanded.clone(), extra: String::new(), info: false, tag: c.tag }
+        } else {
+            c
+        };
         let row = match oc.verif_vectorise_one(&c.seq) {
             Ok(r) => r,
             Err(e) => return format!("err:{}", e),
@@ -650,4 +665,8 @@ pub fn run_c12_one(tier: &str, rng: &mut Rng, model: &Model, rep: &mut Report, c
         cases.push(c);
     }
     run_section(rep, model, "oligocgr-one", cases, &run, &judge);
+    // a column count beyond 2^24 in one record: the frequency must still equal the oligo vector's value
+    let mut c = Case::new("oligocgrbig", &[3, 16, rng.below(2)], &[], "huge-record");
+    c.extra = format!("{}*{}+67*{}+78*2+71*{}", *rng.pick(&[65u64, 84]), 16_777_216 + 60 + rng.below(300), 20 + rng.below(30), 5 + rng.below(10));
+    run_section(rep, model, "huge-record", vec![c], &run, &judge);
 }
